@@ -130,6 +130,49 @@ func drivenCases(t *testing.T) {
 		}
 	}
 	gen(nil, 1)
+	// ---- long random histories under height patterns the geometric draw practically never gives
+	pats := []struct {
+		name string
+		h    func(i int, r func(int) int) int
+	}{
+		{"all tallest", func(i int, r func(int) int) int { return 22 }},
+		{"all lowest", func(i int, r func(int) int) int { return 1 }},
+		{"alternating lowest and tallest", func(i int, r func(int) int) int { return 1 + 21*(i%2) }},
+		{"descending", func(i int, r func(int) int) int { return 22 - i%22 }},
+		{"ascending", func(i int, r func(int) int) int { return 1 + i%22 }},
+		{"uniform", func(i int, r func(int) int) int { return 1 + r(22) }},
+		{"tall with rare low ones", func(i int, r func(int) int) int {
+			if r(7) == 0 {
+				return 1
+			}
+			return 18 + r(5)
+		}},
+	}
+	for pi, pat := range pats {
+		for _, nk := range []int{6, 40, 300} {
+			for rep := 0; rep < common.Pick(2, 12); rep++ {
+				r := common.RngN("driven-long", uint64(pi*1000+nk*10+rep))
+				ln := []int{120, 400, 1500}[rep%3]
+				var h []op
+				var draws []int64
+				v := 1
+				for j := 0; j < ln; j++ {
+					k := r.IntN(nk)
+					switch x := r.IntN(10); {
+					case x < 5:
+						h = append(h, op{Op: "put", K: k, V: v})
+						draws = append(draws, drawFor(pat.h(len(draws), r.IntN)))
+						v++
+					case x < 7:
+						h = append(h, op{Op: "get", K: k})
+					default:
+						h = append(h, op{Op: "rem", K: k})
+					}
+				}
+				add(caseT{Site: "driven/long/" + pat.name, Order: orders[(pi+rep)%len(orders)], History: h, Audit: 25, Draws: draws})
+			}
+		}
+	}
 	if len(batch) > 0 {
 		bubble(t, batch)
 	}
